@@ -278,20 +278,30 @@ func (d *GroupDom) gv(in *Interp, site ssa.Instruction, p Val, who string) *GV {
 	if !ok {
 		in.Undecided(site, "%s: operand is %T, not a point", who, v)
 	}
+	var t types.Type
+	if pp, ok := p.(Ptr); ok && len(pp.Path) == 0 {
+		t = pp.Obj.Type
+	}
+	return d.asGroup(in, site, g, t, who)
+}
+
+// asGroup turns the content of a point-like object of type t into a group element.
+func (d *GroupDom) asGroup(in *Interp, site ssa.Instruction, g *GV, t types.Type, who string) *GV {
 	if g.Invalid && len(g.Ones) > 0 {
 		// built as "zero value + One() on some coordinates": the neutral element iff those are exactly its ones
-		if pp, ok := p.(Ptr); ok && len(pp.Path) == 0 {
-			if n, ok := pp.Obj.Type.(*types.Named); ok {
-				want := identityOnes[n.Obj().Name()]
-				match := len(want) > 0 && len(want) == len(g.Ones)
-				for _, w := range want {
-					if i := load.FieldIndex(pp.Obj.Type, w); i < 0 || !g.Ones[i] {
-						match = false
-					}
+		if pt, ok := t.(*types.Pointer); ok {
+			t = pt.Elem()
+		}
+		if n, ok := t.(*types.Named); ok {
+			want := identityOnes[n.Obj().Name()]
+			match := len(want) > 0 && len(want) == len(g.Ones)
+			for _, w := range want {
+				if i := load.FieldIndex(t, w); i < 0 || !g.Ones[i] {
+					match = false
 				}
-				if match {
-					return d.Zero()
-				}
+			}
+			if match {
+				return d.Zero()
 			}
 		}
 		in.Undecided(site, "%s consumes a point object whose coordinates were set one by one to something that is not the neutral element", who)
@@ -324,6 +334,17 @@ func (d *GroupDom) Call(in *Interp, site ssa.Instruction, fn *ssa.Function, args
 				return []Val{cp}, true
 			}
 			in.Undecided(site, "%s on a coordinate of a point (the group domain does not look inside points)", name)
+		}
+	}
+	if fn.Pkg == in.P.Field {
+		for _, a := range args {
+			if _, isC := a.(CoordPtr); isC {
+				who := "?"
+				if len(in.Stack) > 0 {
+					who = load.ShortName(in.Stack[len(in.Stack)-1])
+				}
+				in.Undecided(site, "%s does coordinate arithmetic on a point (%s) and is not one of the group operations, nor recognised as one by evaluation in the field-expression domain", who, load.ShortName(fn))
+			}
 		}
 	}
 	if fn.Pkg != in.P.Root {
@@ -447,8 +468,64 @@ func (d *GroupDom) Call(in *Interp, site ssa.Instruction, fn *ssa.Function, args
 		in.Store(site, args[1], d.scale(base, dv.P))
 		return nil, true
 	}
+	// a helper the domain does not know by name: what it computes is decided once, by evaluation in the
+	// field-expression domain (props/pointop.go)
+	if PointOpHook != nil && len(fn.Blocks) > 0 {
+		if op, ok := PointOpHook(in.P, fn); ok {
+			res := d.Zero()
+			for i, k := range op.Coeff {
+				if k == 0 {
+					continue
+				}
+				var g *GV
+				switch a := args[i].(type) {
+				case *GV:
+					g = d.asGroup(in, site, a, fn.Params[i].Type(), name)
+				default:
+					g = d.gv(in, site, args[i], name)
+				}
+				res = d.add(res, d.scale(g, d.R.Int(int64(k))), 1)
+			}
+			switch {
+			case op.OutParam0:
+				in.Store(site, args[0], res)
+				if op.ReturnsParam0 {
+					return []Val{args[0]}, true
+				}
+				return nil, true
+			case op.ReturnsValue:
+				return []Val{res}, true
+			}
+		}
+	}
 	return nil, false
 }
+
+// PointOp: a function of the root package, recognised (props/pointop.go) as a group operation on its
+// point-typed operands: result = Σ Coeff[i]·argument i.
+type PointOp struct {
+	Coeff         []int
+	OutParam0     bool // the result is written through parameter 0
+	ReturnsParam0 bool
+	ReturnsValue  bool // the result is returned by value
+}
+
+func (op *PointOp) Describe(fn *ssa.Function) string {
+	s := ""
+	for i, k := range op.Coeff {
+		if k == 0 {
+			continue
+		}
+		s += fmt.Sprintf(" %+d·%s", k, fn.Params[i].Name())
+	}
+	if s == "" {
+		return "neutral element"
+	}
+	return "result =" + s
+}
+
+// PointOpHook is set by the property drivers.
+var PointOpHook func(p *load.Program, fn *ssa.Function) (*PointOp, bool)
 
 // DigitSum is Σ name.d_i · 16^i.
 func (d *GroupDom) DigitSum(name string, n int) *poly.Poly {
